@@ -280,7 +280,7 @@ V2Class(M, TS, ev) ==
          \* object subject: the decision must equal the reference.  One known deviation: a false
          \* negative when the evaluation runs through goals that lie on a tuple cycle (userset
          \* cycle, object that is its own parent): v2 prunes with a visited set shared across branches.
-         IF ev.got = "F" /\ ref = "T" /\ ev.v1 = "T" /\ \E g \in GoalKeys(M, TS, ev.o, ev.r) : OnCycle(M, TS, g)
+         IF ev.got = "F" /\ ref = "T" /\ ev.v1 = "T" /\ ((\E g \in GoalKeys(M, TS, ev.o, ev.r) : OnCycle(M, TS, g)) \/ HasTypeCycle(M, ev.o.t, ev.r))
          THEN <<"KF_V2CycleFalseNegative", ref>>
          \* KF-16: a conditioned tupleset tuple leads to a parent whose target relation lists the
          \* subject's type both with and without a condition
@@ -294,6 +294,8 @@ V2Class(M, TS, ev) ==
          \* many shapes - reflexive goals, aliases inside unions, recursive usersets, contextual
          \* tuples): a false negative for a userset subject that v1 and the reference both grant
          ELSE IF IsUserset(ev.u) /\ ev.v1 = "T" /\ ref = "T" /\ ev.got = "F" THEN <<"KF_V2UndocumentedUsersetDiff", ref>>
+         \* wildcard subject lost through a recursive relation (same weakness as KF-8)
+         ELSE IF IsWild(ev.u) /\ ev.v1 = "T" /\ ref = "T" /\ ev.got = "F" /\ HasTypeCycle(M, ev.o.t, ev.r) THEN <<"KF_V2CycleFalseNegative", ref>>
          ELSE <<"BAD_V2_UNDOCUMENTED_DIFF", ref>>
   ELSE IF ev.v1 = "ERR" THEN
          (IF ev.reason # "" \/ ev.xreason # "" THEN <<"OK_V2_DOCUMENTED_DIFF", ref>> ELSE CheckClass(M, TS, ev))
